@@ -234,6 +234,9 @@ func (f *Frame) call(in ssa.Instruction, cc *ssa.CallCommon, st *State) []Term {
 		return []Term{And(cs...)}
 	case "__base":
 		return []Term{args[0][0]}
+	case "__freshPtr":
+		// the object was allocated during this call
+		return []Term{And(Not(Eq(args[0][0], IntLit(0))), Ge(args[0][0], c.alloc0))}
 	case "__fresh":
 		// the backing array was allocated during this call (or the slice is nil)
 		return []Term{Or(Eq(args[0][0], IntLit(0)), Ge(args[0][0], c.alloc0))}
